@@ -106,9 +106,15 @@ def _scale_decade(spec):
 
 
 def _spec(ctx, min_n=1, decades=(-12, 3)):
-    return gen.rand_meshspec(ctx.rng, n_max=6 if ctx.thorough else 5,
+    spec = gen.rand_meshspec(ctx.rng, n_max=6 if ctx.thorough else 5,
                              max_cells=600 if ctx.thorough else 250,
                              scale_decades=decades, min_n=min_n)
+    if ctx.rng.random() < 0.1:
+        # a dimensionless axis: its unit is the empty string (accepted by Region)
+        units = list(spec.units) if spec.units is not None else ["m"] * spec.nd
+        units[int(ctx.rng.integers(0, spec.nd))] = ""
+        spec.units = units
+    return spec
 
 
 # ---------------------------------------------------------- kind 0: export + import
@@ -310,7 +316,7 @@ def uneven(ctx):
     d = names[ax]
     n = int(spec.n[ax])
     c = spec.pmin[ax] + (np.arange(n) + 0.5) * spec.cell[ax]
-    how = gen.pick(rng, ["one_point", "one_point", "end_point", "geometric", "two_spacings"])
+    how = gen.pick(rng, ["one_point", "one_point", "end_point", "geometric", "two_spacings", "tent"])
     if long_axis:
         how = gen.pick(rng, ["one_point", "end_point"])
     if how == "one_point":
@@ -322,11 +328,16 @@ def uneven(ctx):
     elif how == "geometric":
         q = rng.uniform(1.15, 1.5)
         c = c[0] + spec.cell[ax] * np.concatenate([[0], np.cumsum(q ** np.arange(n - 1))])
+    elif how == "tent":
+        # steps of one size that turn round: up to a peak and down again (not a lattice)
+        peak = int(rng.integers(1, n - 1))
+        steps = np.where(np.arange(n - 1) < peak, 1.0, -1.0)
+        c = c[0] + spec.cell[ax] * np.concatenate([[0], np.cumsum(steps)])
     else:
         steps = np.where(np.arange(n - 1) % 2 == 0, 1.0, rng.uniform(1.2, 2.0))
         c = c[0] + spec.cell[ax] * np.concatenate([[0], np.cumsum(steps)])
     sp = np.diff(c)
-    assert np.all(sp > 0) and np.max(np.abs(np.diff(sp))) >= 0.099 * spec.cell[ax]
+    assert (how == "tent" or np.all(sp > 0)) and np.max(np.abs(np.diff(sp))) >= 0.099 * spec.cell[ax]
     strip = gen.pick(rng, ["keep_attrs", "no_geometry_attrs"])
     xa = f.to_xarray()
     xa = xa.assign_coords({d: (d, c, dict(xa[d].attrs))})
